@@ -28,8 +28,8 @@ class Res:  # the resource class the harness caches
 
 
 class Prepared:
-    def __init__(self, name, seen):
-        self.name, self.seen = name, seen
+    def __init__(self, name, seen, deps):
+        self.name, self.seen, self.deps = name, seen, deps   # deps: what this (re)preparation declared, in order
 
 
 class FakeTime:
@@ -82,22 +82,30 @@ class World:
             self.spec_problems.append(
                 f"preparation of r{i} was handed a spec that is not the offered one: {spec!r}")
         deps = list(spec["deps"])
+        # like the real FunctionTest preparer, this one looks other resources up in the cache and declares
+        # some dependencies only while they are there: (c, d) = "follow d if c is cached right now"
+        for c, d in (spec.get("cond") or []):
+            if self.cache.get_resource_system_data_from_cache(Res, rname(c)) is not None:
+                deps.append(d)
         spec["__scribble__"] = True
         spec["deps"] = None
+        spec["cond"] = None
         seen = {d: self.G[d] for d in deps}
         self.G[i] += 1
         self.prepares.append((i, dict(seen)))
-        return (Prepared(cache_key, seen), [self.res(d) for d in deps])
+        return (Prepared(cache_key, seen, list(deps)), [self.res(d) for d in deps])
 
-    async def offer(self, i, v, deps):
+    async def offer(self, i, v, deps, cond=()):
         sd = self.cache.get_resource_system_data_from_cache(Res, rname(i))
-        tag = f"r{i}@v{v}:{sorted(deps)}"
+        cond = [list(p) for p in cond]
+        tag = f"r{i}@v{v}:{sorted(deps)}:{cond}"
         if sd is None or sd.resource_version != f"v{v}":
             self.offered[i] = tag            # a same-version offer is a cache hit: the earlier spec stays
             self.offered_version[i] = f"v{v}"
         return await self.cache.prepare_and_cache(
             resource_class=Res, preparer=self.preparer,
-            metadata={"name": rname(i), "resourceVersion": f"v{v}"}, spec={"deps": list(deps), "tag": tag})
+            metadata={"name": rname(i), "resourceVersion": f"v{v}"},
+            spec={"deps": list(deps), "cond": cond, "tag": tag})
 
     async def delete(self, i, ver):
         before = self.cache.get_resource_system_data_from_cache(Res, rname(i))
@@ -115,7 +123,7 @@ class World:
             else:
                 version = int(sd.resource_version[1:])
                 r = sd.resource
-                seen = [[d, r.seen.get(d)] for d in (sd.spec.get("deps") or [])] if isinstance(r, Prepared) else "bad"
+                seen = [[d, r.seen.get(d)] for d in r.deps] if isinstance(r, Prepared) else "bad"
             subs = sorted(int(x.name[1:]) for x in self.registry.get_subscriptions(self.res(i)))
             out.append({"version": version, "seen": seen, "subs": subs, "gen": self.G[i]})
         return out
@@ -128,7 +136,7 @@ class World:
             sd = self.cache.get_resource_system_data_from_cache(Res, rname(i))
             if sd is None:
                 continue
-            for d in (sd.spec.get("deps") or []):
+            for d in sd.resource.deps:
                 if sd.resource.seen.get(d) != self.G[d]:
                     bad.append((i, d, sd.resource.seen.get(d), self.G[d]))
         return bad
@@ -151,7 +159,7 @@ class World:
                 if t is not None and not t.done():
                     probs.append(f"deleted r{i} still has a live monitor")
             else:
-                deps = sorted((sd.spec.get("deps") or []))
+                deps = sorted(set(sd.resource.deps))     # what the LAST (re)preparation declared
                 if sd.spec.get("tag") != self.offered.get(i) or self.offered_version.get(i) != sd.resource_version:
                     probs.append(f"cached r{i} is {sd.resource_version} / {sd.spec.get('tag')} but the last effective "
                                  f"offer was {self.offered_version.get(i)} / {self.offered.get(i)}")
@@ -188,9 +196,9 @@ def run_history(n, history, probe=True):
         nextv = max([op["v"] for op in history if op["op"] == "offer"] + [0]) + 1
         for op in history:
             if op["op"] == "offer":
-                await world.offer(op["r"], op["v"], op["deps"])
+                await world.offer(op["r"], op["v"], op["deps"], op.get("cond") or [])
                 events.append({"op": "offer", "r": op["r"], "v": op["v"], "deps": op["deps"],
-                               "obs": world.observe()})
+                               "cond": op.get("cond") or [], "obs": world.observe()})
             else:
                 await world.delete(op["r"], op.get("ver"))
                 events.append({"op": "delete", "r": op["r"], "ver": op.get("ver"), "obs": world.observe()})
@@ -209,7 +217,8 @@ def run_history(n, history, probe=True):
             for d in range(n):
                 sd = world.cache.get_resource_system_data_from_cache(Res, rname(d))
                 deps = list((sd.spec.get("deps") or [])) if sd else []
-                await world.offer(d, nextv, deps)
+                cond = list((sd.spec.get("cond") or [])) if sd else []
+                await world.offer(d, nextv, deps, cond)
                 nextv += 1
                 if not await settle(loop, world):
                     findings.append("did not become idle (probe)")
@@ -261,7 +270,15 @@ def gen_history(r, n, length):
                 used[i] += 1
                 v = used[i]
             cur[i] = v
-            hist.append({"op": "offer", "r": i, "v": v, "deps": deps, "yields": yields})
+            cond = []
+            if lower and r.random() < 0.35:      # dependencies declared only while some other resource is cached
+                for d in lower:
+                    if d not in deps and r.random() < 0.6:
+                        # mostly keyed on a resource it follows anyway (the FunctionTest shape: watch the
+                        # template once the function under test is there), sometimes on any other one
+                        pool = deps if deps and r.random() < 0.7 else [c for c in range(n) if c != i]
+                        cond.append([r.choice(pool), d])
+            hist.append({"op": "offer", "r": i, "v": v, "deps": deps, "cond": cond, "yields": yields})
         else:
             mode = r.random()
             if mode < 0.7:
@@ -276,15 +293,22 @@ def gen_history(r, n, length):
     return hist
 
 
-def exhaustive_histories(n, length, yields=(0, 1, 2)):
+def exhaustive_histories(n, length, yields=(0, 1, 2), dynamic=False):
     """all histories of `length` ops over n resources with fresh versions, full dependency sets
-    on lower ranks, plain deletes, and 0..2 turns after each op"""
+    on lower ranks, plain deletes, and 0..2 turns after each op; with `dynamic` every offer may
+    also carry one cache-dependent dependency (c, d): d lower and not static, c any other resource"""
     alphabet = []
     for i in range(n):
         lower = list(range(i))
         for k in range(len(lower) + 1):
             for deps in itertools.combinations(lower, k):
-                alphabet.append(("offer", i, list(deps)))
+                alphabet.append(("offer", i, (list(deps), [])))
+                if dynamic:
+                    for d in lower:
+                        if d not in deps:
+                            for c in range(n):
+                                if c != i:
+                                    alphabet.append(("offer", i, (list(deps), [[c, d]])))
         alphabet.append(("delete", i, None))
     for ops in itertools.product(alphabet, repeat=length):
         for ys in itertools.product(list(yields), repeat=length):
@@ -293,7 +317,7 @@ def exhaustive_histories(n, length, yields=(0, 1, 2)):
             for (kind, i, deps), y in zip(ops, ys):
                 if kind == "offer":
                     used[i] += 1
-                    hist.append({"op": "offer", "r": i, "v": used[i], "deps": deps, "yields": y})
+                    hist.append({"op": "offer", "r": i, "v": used[i], "deps": deps[0], "cond": deps[1], "yields": y})
                 else:
                     hist.append({"op": "delete", "r": i, "ver": None, "yields": y})
             yield hist
@@ -301,8 +325,19 @@ def exhaustive_histories(n, length, yields=(0, 1, 2)):
 
 def nontrivial(hist):
     """a dependency exists, something is changed after a dependent was built, and a delete occurs"""
-    has_dep = any(op["op"] == "offer" and op["deps"] for op in hist)
+    has_dep = any(op["op"] == "offer" and (op["deps"] or op.get("cond")) for op in hist)
     return has_dep and len(hist) >= 3
+
+
+def world_redeclared(events):
+    """did a loop turn (i.e. a background re-preparation) change what some resource follows?"""
+    prev = None
+    for e in events:
+        subs = [o["subs"] for o in e["obs"]]
+        if e["op"] == "turn" and prev is not None and subs != prev:
+            return True
+        prev = subs
+    return False
 
 
 def strip_obs(events):
@@ -316,6 +351,9 @@ def check_history(ck, drv_batch, n, hist):
     ck.count("ops:offer", sum(1 for o in hist if o["op"] == "offer"))
     ck.count("ops:delete", sum(1 for o in hist if o["op"] == "delete"))
     ck.count("turn-events", sum(1 for e in events if e["op"] == "turn"))
+    ck.count("ops:offer-with-cache-dependent-deps", sum(1 for o in hist if o["op"] == "offer" and o.get("cond")))
+    if world_redeclared(events):
+        ck.count("histories-where-a-background-re-preparation-changed-the-declared-dependencies")
     if any(o["op"] == "delete" and i + 1 < len(hist) and hist[i + 1]["op"] == "offer"
            and hist[i + 1]["r"] == o["r"] and o.get("yields", 0) == 0 for i, o in enumerate(hist)):
         ck.count("delete-then-offer-same-resource-no-turn")
@@ -384,7 +422,8 @@ def run(tier: str) -> int:
         "preparers never suspend and never raise (true of every real prepare_*; C20)",
         "declared dependencies are acyclic (ranked) so SubscriptionCycle never fires",
         "two reads of the clock never return the same value",
-        "the dependencies a preparer declares are a function of the spec",
+        "the dependencies a preparer declares are a function of the spec and of which resources are cached at that "
+        "moment (what the real preparers look at)",
     ]
     ck.prove(extractors=["CacheFacts"])
     drv = LeanDriver("C16")
@@ -411,10 +450,18 @@ def run(tier: str) -> int:
                 if len(batch) >= 500:
                     flush(ck, drv, batch)
         flush(ck, drv, batch)
+        for L in (1, 2, 3):
+            for hist in exhaustive_histories(3, L, yields=(0, 1, 2) if L < 3 else (0, 1), dynamic=True):
+                if any(o.get("cond") for o in hist):
+                    check_history(ck, batch, 3, hist)
+                    if len(batch) >= 500:
+                        flush(ck, drv, batch)
+        flush(ck, drv, batch)
         exhaustive = True
         ck.cov["exhaustive_box"] = "all histories of <=3 operations over 3 resources (every dependency set on lower " \
                                    "ranks, plain deletes) x turn placements {0,1,2} after each operation, and all " \
-                                   "histories of 4 operations x turn placements {0,1}"
+                                   "histories of 4 operations x turn placements {0,1}; plus all histories of <=3 operations in which " \
+                                   "offers may carry one cache-dependent dependency (turn placements {0,1,2}, {0,1} at 3)"
         ck.leanchecker()
     ck.cov["exhaustive"] = exhaustive
     def widen(ck2):
@@ -429,6 +476,7 @@ def run(tier: str) -> int:
     return ck.finish(
         widen=widen,
         rule="random histories of 2-12 offer/delete operations over 3-5 resources with ranked dependency sets, "
+             "dependencies declared only while another resource is cached (35% of offers), "
              "same/new/old versions, plain/versioned/stale deletes, 0-3 loop turns after each operation, then run to "
              "idle and a probe phase; non-trivial = at least 3 operations and some declared dependency; distinct by history",
     )
